@@ -180,7 +180,7 @@ def _parse_runs(it, from_bytes, to_bytes, tag, shapes):
             for s, o in outs:
                 npaths += 1
                 if isinstance(o, Panic):
-                    out.append((shape, list(s.pc), None, None, {'panic': str(o), 'data': data}))
+                    out.append((shape, list(s.pc), None, None, {'panic': str(o), 'data': data, 'decoded': list(decoded)}))
                     continue
                 if not it.feasible(s, is_variant(o.v, 'Some')):
                     continue
@@ -277,8 +277,11 @@ def poolkey_kernel(chk, it):
         raise Inconclusive('PoolKey::from_bytes reached only %d parsing paths' % len(some_a))
     for shape, pc, key, kb, info in runs_a:
         if 'panic' in info:
-            chk.obligation('PANIC/poolkey-parse/%s' % shape, pc, z3.BoolVal(False), {}, kind='PANIC', describe=info['panic'],
-                           replay=lambda mo, info=info: replay_parse_panic(mo, info))
+            pin = dict(('b%d' % i, b) for i, b in enumerate(info['data'][:33]))
+            for k_, (ok_, (lt_, lh_), (rt_, rh_)) in enumerate(info.get('decoded') or []):
+                pin.update({'dec%d_left_tag' % k_: lt_, 'dec%d_left_hash' % k_: lh_, 'dec%d_right_tag' % k_: rt_, 'dec%d_right_hash' % k_: rh_})
+            chk.obligation('PANIC/poolkey-parse/%s' % shape, pc, z3.BoolVal(False), pin, kind='PANIC', describe=info['panic'],
+                           replay=lambda mo, info=info, pin=pin, shape=shape: replay_parse_panic(mo, info, pin, shape))
     # vacuity: the short form parses, the long form parses, both reversed spellings are reachable
     chk.cover_any('poolkey/short-form-parses', [(pc, None) for sh, pc, k, kb, i in some_a if sh.endswith(':len1')])
     chk.cover_any('poolkey/long-form-parses', [(pc, None) for sh, pc, k, kb, i in some_a if sh.endswith(':long')])
@@ -508,5 +511,31 @@ def replay_placeholder_side(model, inputs):
                                'why': 'a pool with the NewCustom placeholder as one side was created from the request' if created else 'the request was not settled'}
 
 
-def replay_parse_panic(model, info):
-    raise Inconclusive('no native scenario for a panic while parsing a pool key: %s' % info.get('panic'))
+def replay_parse_panic(model, info, pin, shape):
+    """an ordinary payment whose data is the byte string of the model (for the long form: 32 zero bytes and the stdcode of the pair
+    the model's tail decodes to): natively, does the swap phase of sealing panic?"""
+    ev = lambda k: harness.model_int(model, pin[k])
+    if shape.endswith('long'):
+        if 'dec0_left_tag' not in pin:
+            raise Inconclusive('panic on the long form before its tail was decoded: no native spelling')
+        l = _denom_of_model(ev('dec0_left_tag'), ev('dec0_left_hash'))
+        r = _denom_of_model(ev('dec0_right_tag'), ev('dec0_right_hash'))
+        data = spelling_hex(True, l, r)
+    else:
+        n = int(shape.split('len')[-1])
+        data = ''.join('%02x' % ev('b%d' % i) for i in range(n))
+    raw = lambda k: {'txhash': {'hex': ('%02x' % k) * 32}, 'index': 0}
+    coins = [{'id': raw(0x21), 'covhash': {'covhash_of': 'true'}, 'value': '1010', 'denom': 'MEL', 'adata': '', 'height': 0}]
+    txs = [{'name': 'a', 'kind': 0x00, 'inputs': [raw(0x21)], 'fee': '0', 'covenants': ['true'], 'data': data,
+            'outputs': [{'covhash': {'covhash_of': 'true'}, 'value': '1000', 'denom': 'MEL', 'adata': ''},
+                        {'covhash': {'covhash_of': 'true'}, 'value': '10', 'denom': 'MEL', 'adata': '00'}]}]
+    sc = {'kind': 'batch', 'network': 2, 'height': 5, 'fee_pool': '0', 'tips': '0', 'fee_multiplier': '0', 'dosc_speed': '1000000',
+          'coins': coins, 'txs': txs, 'probes': [], 'pools': [], 'melmint_only': 'swaps'}
+    out = harness.run_replay([sc], 'dev')[0]
+    if 'error' in out or 'unrealizable' in out:
+        raise Inconclusive('replay: %s' % str(out)[:300])
+    run = out['runs'][0]
+    if run.get('result') != 'Ok':
+        raise Inconclusive('replay: the payment itself was rejected: %s' % run.get('result'))
+    mm = run.get('melmint', {})
+    return bool(mm.get('panicked')), sc, {'request_data': data, 'panicked': mm.get('panicked'), 'msg': (mm.get('msg') or '')[-200:]}
